@@ -34,6 +34,7 @@ def run(ctx):
     ctx.guard(r3)
     ctx.guard(r4)
     ctx.guard(r5_position_space)
+    ctx.guard(r6_intervals)
 
 
 def _walk(stmts):
@@ -367,3 +368,113 @@ def r5_position_space(ctx):
                         % (name, kind, text(lp.iter), dkind, text(dl[0].iter)),
                         text_="%s boundary stream" % name)
     ctx.floor("C08.R5", n, 2, "position-space boundary loops")
+
+
+# -- R6: half-open interval discipline in the partitioners -------------------------
+
+def _role(ctx, f, e, env, depth=0):
+    """'S' (inclusive start), 'E' (exclusive end), 'C' (coordinate) or None."""
+    if depth > 5 or e is None:
+        return None
+    t = text(e).replace(" ", "")
+    if t in env:
+        return env[t]
+    if isinstance(e, ast.Name):
+        v = pat.single_def(ctx, f, e)
+        if v is not None:
+            return _role(ctx, f, v, env, depth + 1)
+        return None
+    if isinstance(e, ast.Call) and isinstance(e.func, ast.Attribute) and \
+            e.func.attr in ("sub_pre_halo", "add_post_halo") and len(e.args) == 1:
+        return _role(ctx, f, e.args[0], env, depth + 1)
+    if isinstance(e, ast.BinOp) and isinstance(e.op, (ast.Add, ast.Sub)):
+        rt = text(e.right).replace(" ", "")
+        if rt in ("self.pre_halo", "self.post_halo"):
+            return _role(ctx, f, e.left, env, depth + 1)        # a halo shift
+        if rt == "self.step" and isinstance(e.op, ast.Add) and \
+                _role(ctx, f, e.left, env, depth + 1) == "S":
+            return "E"                                          # start + width
+        return None
+    if isinstance(e, ast.Subscript) and text(e.value).replace(" ", "") == "self.splits":
+        idx = e.slice
+        if isinstance(idx, ast.Name):
+            return "S"
+        if isinstance(idx, ast.BinOp) and isinstance(idx.op, ast.Add) and \
+                text(idx.right) == "1" and isinstance(idx.left, ast.Name):
+            return "E"
+        return None
+    if isinstance(e, ast.Subscript) and isinstance(e.value, ast.Call) and \
+            isinstance(e.value.func, ast.Attribute) and e.value.func.attr == "getActive":
+        return {"0": "S", "1": "E"}.get(text(e.slice))
+    if isinstance(e, ast.BinOp) and isinstance(e.op, ast.Mult) and \
+            text(e.right).replace(" ", "") == "self.step" and \
+            isinstance(e.left, ast.BinOp) and isinstance(e.left.op, ast.FloorDiv) and \
+            text(e.left.right).replace(" ", "") == "self.step":
+        return "S"                      # floor to a multiple of the step
+    return None
+
+
+ALLOWED = {("S", "E"): {("<", "S", "E"), ("<=", "E", "S")},
+           ("C", "S"): {("<", "C", "S"), ("<=", "S", "C")},
+           ("C", "E"): {("<", "C", "E"), ("<=", "E", "C")}}
+MEANING = {("<", "E", "S"): "`end < start` misses end == start (the ranges are "
+                            "already disjoint then)",
+           ("<=", "S", "E"): "`start <= end` also holds when start == end (an "
+                             "empty overlap)",
+           ("<=", "C", "S"): "`coord <= start` excludes the start itself, which "
+                             "belongs to the range",
+           ("<", "S", "C"): "`start < coord` excludes the start itself, which "
+                            "belongs to the range",
+           ("<", "E", "C"): "`end < coord` lets coord == end through, which is "
+                            "outside the range",
+           ("<=", "C", "E"): "`coord <= end` includes the end, which is outside "
+                             "the range"}
+
+
+def r6_intervals(ctx):
+    """Active ranges and partitions are half-open [start, end).  Every
+    comparison between an inclusive start, an exclusive end and a coordinate
+    in the two partitioners must be one of the forms that are exact for
+    half-open intervals; a strictness flip is an off-by-one at a boundary
+    (a spurious partition starting at the active end, a coordinate equal to
+    a boundary assigned to the wrong partition, ...)."""
+    n = 0
+    for key in ("core/fiber.py:Fiber.splitUniform._SplitterUniform.__iter__",
+                "core/fiber.py:Fiber._splitNonUniform_iter._SplitterNonUniform_iter.__iter__"):
+        f = ctx.func(key)
+        env = {}
+        for a in f.own_nodes():
+            if isinstance(a, ast.Assign) and isinstance(a.targets[0], ast.Tuple) and \
+                    len(a.targets[0].elts) == 2 and isinstance(a.value, ast.Call) and \
+                    isinstance(a.value.func, ast.Attribute) and \
+                    a.value.func.attr == "getActive":
+                env[text(a.targets[0].elts[0])] = "S"
+                env[text(a.targets[0].elts[1])] = "E"
+            if isinstance(a, ast.For) and isinstance(a.target, ast.Tuple) and \
+                    "__iter__" in text(a.iter):
+                env[text(a.target.elts[0])] = "C"
+        for cmp_ in f.own_nodes():
+            if not (isinstance(cmp_, ast.Compare) and len(cmp_.ops) == 1 and
+                    isinstance(cmp_.ops[0], (ast.Lt, ast.LtE))):
+                continue
+            l, r = cmp_.left, cmp_.comparators[0]
+            rl, rr = _role(ctx, f, l, env), _role(ctx, f, r, env)
+            if not rl or not rr or rl == rr:
+                continue
+            op = "<" if isinstance(cmp_.ops[0], ast.Lt) else "<="
+            pair = tuple(sorted((rl, rr), key="CSE".index))
+            form = (op, rl, rr)
+            n += 1
+            if form in ALLOWED[pair]:
+                ctx.ok("C08.R6", f, cmp_, "half-open interval test %s %s %s"
+                       % (rl, op, rr))
+            else:
+                ctx.bad("C08.R6", f, cmp_, "`%s` compares %s with %s as %s %s %s: "
+                        "%s -- an off-by-one at a partition / active-range "
+                        "boundary" % (text(cmp_), {"S": "an inclusive start",
+                                                   "E": "an exclusive end",
+                                                   "C": "a coordinate"}[rl],
+                                      {"S": "an inclusive start", "E": "an exclusive end",
+                                       "C": "a coordinate"}[rr], rl, op, rr,
+                                      MEANING.get(form, "not exact for [start, end)")))
+    ctx.floor("C08.R6", n, 8, "interval comparisons in the partitioners")
